@@ -33,6 +33,7 @@ type peerRun struct {
 	dump      string
 	injectedN int // index of the regular packet before which the injection was made (-1: none)
 	injTyp    byte
+	abandoned bool // a party stayed blocked after all connections were closed
 }
 
 type injection struct {
@@ -54,7 +55,7 @@ func peerHandler(cmd string) ([]byte, uint32) { return outputFor(cmd), 0 }
 
 // runPeer runs one session. role selects which side the Peer plays.
 func runPeer(role, kex string, su suite, inj injection) *peerRun {
-	pr := &peerRun{role: role, tap: &tapRec{}, injectedN: -1}
+	pr := &peerRun{role: role, tap: newTapRec(), injectedN: -1}
 	pE, mP := newDuplex("peer", "mitm-p")
 	mG, gE := newDuplex("mitm-g", "go")
 	pcfg := PeerConfig{Kex: []string{kex}, Ciphers: []string{su.Cipher}, NoStrict: true}
@@ -123,6 +124,14 @@ func runPeer(role, kex string, su suite, inj injection) *peerRun {
 					if err := checkOut(cmd, out, st); err != nil {
 						return err
 					}
+					if i == 1 {
+						// the Go side crossed its RekeyThreshold while answering and has
+						// requested a re-exchange; wait for it (no clock involved)
+						step("await-go-rekey")
+						if err := p.AwaitKex(3); err != nil {
+							return err
+						}
+					}
 				}
 				step("disconnect")
 				return p.Disconnect(11, "bye")
@@ -181,6 +190,12 @@ func runPeer(role, kex string, su suite, inj injection) *peerRun {
 					if _, err := p.ServeExec(peerHandler); err != nil {
 						return err
 					}
+					if i == 1 {
+						step("await-go-rekey")
+						if err := p.AwaitKex(3); err != nil {
+							return err
+						}
+					}
 				}
 				step("done")
 				return nil
@@ -192,8 +207,16 @@ func runPeer(role, kex string, su suite, inj injection) *peerRun {
 	pr.x.stop()
 	pE.Close()
 	gE.Close()
-	for ; got < 2; got++ {
-		<-done
+	if got < 2 {
+		// everything is closed now; a party that still does not return is blocked for good
+		// (frozen again) and is left behind
+		g2, frozen, _, _ := await(2-got, done)
+		if g2 < 2-got {
+			pr.abandoned = true
+			if !frozen {
+				pr.giveUp = "a party neither returned nor froze after everything was closed"
+			}
+		}
 	}
 	if goConn != nil {
 		goConn.Close()
